@@ -2103,6 +2103,10 @@ impl Connection {
             _ => unreachable!("first packet must be delivered in Handshake state"),
         }
 
+        // Remember the packet number like `handle_packet` does for every later packet, so that a
+        // duplicate of the connection-creating Initial is discarded instead of processed again.
+        self.spaces[SpaceId::Initial].dedup.insert(packet_number);
+
         self.on_packet_authenticated(
             now,
             SpaceId::Initial,
